@@ -271,6 +271,11 @@ func propC02(c *Ctx) {
 		}
 	}
 
+	c.Rule("R2.7", "re-attaching logs to a cached block on a retried step is idempotent: a log is dropped only as a duplicate of an attached one", 2)
+	checkLogsAddDedup(c, "R2.7")
+	c.Rule("R2.6", "a reorg unwind leaves no row above the position that remains (positions are per step, rows per block)", 1)
+	checkUnwindCoversStep(c, "R2.6")
+
 	// ---- R2.5 -----------------------------------------------------------
 	c.Rule("R2.5", "in every implementation of Destination.Insert each SQL site on the shared handle executes with the *sync.Mutex parameter held", 3)
 	{
